@@ -71,6 +71,12 @@ CLAIMED = {
  "C14": ("exploration", "ack/start-tick snapshot monitor over concurrent writers, merger and query loops (both shipped MetaStores, -race) + porcupine linearizability of MemoryMetaStore histories",
          "Every finished query is checked against the set of rows acknowledged before its start tick (Err == nil => each exactly once; never a duplicate or a never-ingested row); MemDataStore really deletes so vanished files must surface as errors. Short concurrent Update/snapshot histories of MemoryMetaStore are checked linearizable with porcupine. The FileSystemDataStore-as-MetaStore variant reports the known merge-window finding by signature and anything else as a violation.",
          "FS-variant attribution: store kind fs ∧ anomaly ∈ {duplicate, omission} ∧ every affected row belongs to sources of a merge whose call overlaps the query's lifetime.", "6/C14"),
+ "C16": ("exploration", "sequential specification model vs. directory listing/OpenFile/scan after every operation, forced name collisions via the tagged setter; concurrent variant under the race detector",
+         "Generated CreateFile/Write/Close/Abort/TombstoneFile/OpenFile/scan sequences over up to six interleaved writers with the name draw forced through 1-4 names: after every operation the directory must equal a 40-line model's artifacts exactly, published pointers must return exactly their bytes, the scan must list exactly the published valid bloom files, CreateFile must never return a live pointer. A goroutine-per-writer variant checks the final state.",
+         "A writer whose pointer was tombstoned mid-write is retired; tombstones only in the sequential variant (a pointer is a name; see DESIGN.md).", "6/C16"),
+ "C27": ("exploration", "fd 1/2 capture of an engine-only child process (plus strace write-syscall cross-check in the thorough tier)",
+         "A child process built without -race runs ingest, flush (limit/time/explicit), query, merge and Stop histories with store failures at every call kind, corrupt/truncated files, external-writer files with absent filters, cancelled queries, unmarshalable rows and both Stop-deadline abandonment paths, with no Logger configured; both descriptors must stay empty and the child must exit 0.",
+         "The child's own summary goes to a file, never to fd 1/2.", "6/C27"),
 }
 
 NOT_YET = "check not built yet in this session (design in DESIGN.md section 6); not claimed until its monitor exists and is silent on the unchanged tree"
